@@ -107,6 +107,7 @@ TWO32 = 2 ** 32
 SEEN_IDS = set()
 DEFS = {}
 ERRORS = []
+TAIL = [None]     # time of the closing marker of the last score read
 ACTIONS = {'addToHead': 0, 'addToTail': 1, 'addBefore': 2, 'addAfter': 3,
            'addReplace': 4, 'head': 0, 'tail': 1, 'before': 2, 'after': 3,
            'replace': 4, 'h': 0, 't': 1, 'b': 2, 'a': 3, 'r': 4,
@@ -209,6 +210,9 @@ def finish(v, tail=0):
                 w.address != m[0] for w, m in zip(wire, msgs)):
             v.fail('raw_score_differs', f'{ent} vs {osc_ref.to_plain(b)}')
             return None
+        if isinstance(ent[0], bool) or not isinstance(ent[0], (int, float)):
+            v.fail('score_time_type', f'{ent}')
+            return None
         if b.timetag != int(F(ent[0]) * TWO32):
             v.fail('raw_timetag', f'{ent[0]} encoded as {b.timetag}')
         for w in wire:
@@ -223,6 +227,7 @@ def finish(v, tail=0):
     if len(tails) != 1:
         v.fail('score_tail_marker', f'{[e[:2] for e in body]}')
         return None
+    TAIL[0] = body[tails[0]][0]
     del body[tails[0]]
     return body
 
@@ -722,8 +727,9 @@ def expected_items(case, flags=()):
     hands its inner event to the following pattern; Pdur converts the cut
     delta to int."""
     out = []
+    end = F(0)
     for p in case['players']:
-        items, _ = ref.evaluate(
+        items, total = ref.evaluate(
             p['tree'], p.get('proto'), None,
             'pchain_hands_on_inner_event' in flags,
             'pdur_truncates_int_delta' in flags)
@@ -731,15 +737,18 @@ def expected_items(case, flags=()):
             for i, x in enumerate(items):
                 if x.restdelta:
                     items = items[:i + 1]
+                    total = x.t      # never rescheduled after this event
                     break
         out.extend((F(p['start']) + x.t, x) for x in items)
-    return out
+        end = max(end, F(p['start']) + total)
+    return out, end
 
 
 def compare_streams(case, exp, snew, nset, other, names, gates, exact):
     """-> list of (kind, detail); empty when the score is what `exp`
-    demands."""
+    (items, end of the last player) demands."""
     bad = []
+    exp, end = exp
     lat = F(case['latency'])
     by_marker = {}
     for t, x in exp:
@@ -821,6 +830,11 @@ def compare_streams(case, exp, snew, nset, other, names, gates, exact):
                 and n['pairs'] == [('gate', 0)]:
             continue
         bad.append(('unexpected_message', f"{n['msg']}"))
+    # the schedule ends when the last player has waited its last delta
+    if not bad and not time_ok(TAIL[0], end, exact):
+        bad.append(('stream_total_duration',
+                    f'the last player ends at {TAIL[0]!r}, expected '
+                    f'{float(end)!r}'))
     for t, msgs in other:
         ok = has_mono and all(
             m[0] == '/n_free' and not any(i in note_ids for i in m[1:])
